@@ -154,13 +154,13 @@ def variants(rng, nE):
     return None, list(range(nE))
 
 
-def run(ctx, rep):
+def _work(ctx, rep):
     rng = ctx.sub_rng('cases')
     cases = []
     core = list(core_cases(2))
     rng.shuffle(core)
-    cases += core[: (2500 if ctx.tier == 'quick' else 7290)]
-    cases += [random_case(rng) for _ in range((2500 if ctx.tier == 'quick' else 40000) * ctx.scale)]
+    cases += core[: (2500 if ctx.tier == 'quick' else 7290)][ctx.part::ctx.parts]
+    cases += [random_case(rng) for _ in range((2500 if ctx.tier == 'quick' else 400000) * ctx.scale // ctx.parts)]
     lines, expect = [], []
     for case in cases:
         if case['opts']['min_iter'] > case['opts']['max_iter'] and rng.random() < 0.8:
@@ -186,12 +186,17 @@ def run(ctx, rep):
     natural(ctx, rep)
 
 
+def run(ctx, rep):
+    import framework
+    framework.parallel(_work, ctx, rep, parts=(1 if ctx.tier == 'quick' else ctx.workers))
+
+
 def natural(ctx, rep):
     """Parser-built systems through solve(): traced vs untraced twin, and trace shape per solved period."""
     rng = ctx.sub_rng('natural')
-    for _ in range((150 if ctx.tier == 'quick' else 2500) * ctx.scale):
+    for _ in range((150 if ctx.tier == 'quick' else 20000) * ctx.scale // ctx.parts):
         a, b, c = rng.uniform(-0.9, 0.9), rng.uniform(-0.9, 0.9), rng.uniform(-2, 2)
-        script = f'Y = {a!r} * Z + {c!r} + 0.5 * Y[-1]\nZ = {b!r} * Y + X'
+        script = f'Y = {a:.12f} * Z + {c:.12f} + 0.5 * Y[-1]\nZ = {b:.12f} * Y + X'
         Model = fsic.build_model(fsic.parse_model(script))
         Traced = type('T', (TracerMixin, Model), {})
         n = 5
